@@ -205,6 +205,18 @@ pub fn judge(run: &Run, h: &Hist) -> V {
             }
             if !a.durable_after.values().any(|d| contains_record(d, sep, e)) {
                 let anywhere = run.files.values().any(|fl| contains_record(&fl.data, sep, e));
+                if let Some((p, _)) = a.entry_unsynced_after.iter().find(|(_, d)| contains_record(d, sep, e)) {
+                    v.c10.push(f(
+                        "C10/acked-event-in-file-whose-directory-entry-was-never-synced",
+                        format!(
+                            "batch {} was reported written (attempt {}) but event {:?} is only in {p}, created since the last successful sync of its directory: a crash now loses the whole file",
+                            a.batch,
+                            a.attempt_no,
+                            String::from_utf8_lossy(e)
+                        ),
+                    ));
+                    break;
+                }
                 v.c10.push(f(
                     if anywhere { "C10/acked-event-not-synced" } else { "C10/acked-event-missing" },
                     format!(
@@ -239,7 +251,7 @@ pub fn judge(run: &Run, h: &Hist) -> V {
                     continue;
                 }
                 // retention may have deleted the file that held it
-                let holders: Vec<&String> = run.attempts[*ai].durable_after.iter().filter(|(_, d)| contains_record(d, sep, e)).map(|(p, _)| p).collect();
+                let holders: Vec<&String> = run.attempts[*ai].durable_after.iter().chain(run.attempts[*ai].entry_unsynced_after.iter()).filter(|(_, d)| contains_record(d, sep, e)).map(|(p, _)| p).collect();
                 let removed = holders.iter().any(|p| run.log.iter().any(|o| o.kind == OpKind::Remove && o.outcome == OpOutcome::Ok && &&o.path == p && o.idx < c.at_op));
                 if !removed {
                     v.c10.push(f(
@@ -408,7 +420,7 @@ pub fn judge(run: &Run, h: &Hist) -> V {
             if *pi + 1 == ai && a.attempt_no == 1 && attempt_fault_free && period_stable {
                 let prev = &run.attempts[*pi];
                 let (prev_period, _) = period(run.cfg.roll, prev.clock_ms);
-                let size_before: usize = prev.durable_after.get(ppath).map_or(0, |d| d.len());
+                let size_before: usize = prev.durable_after.get(ppath).or_else(|| prev.entry_unsynced_after.get(ppath)).map_or(0, |d| d.len());
                 let batch_bytes: usize = a.events.iter().map(|e| e.len()).sum();
                 let fits = size_before + batch_bytes <= run.cfg.size_limit as usize;
                 let same_period = prev_period == want_period;
